@@ -1,18 +1,19 @@
-# source me.  igc_compile <outdir> <file.c>...  compiles the repository's compat-libc
-# sources against the host headers + a two-file shim, then prefixes every symbol
-# with igc_ (so igc_memcpy ... are the repository's functions and the unprefixed
-# names stay glibc's = the reference) and maps the host-owned references back.
+# source me.  igc_one <shim> <out.o> <file.c>  compiles one of the repository's compat-libc sources against the
+# host headers + a two-file shim, then prefixes every symbol with igc_ (so igc_memcpy ... are the repository's
+# functions and the unprefixed names stay glibc's = the reference) and maps the host-owned references back:
+# every undefined symbol that starts with two underscores (__errno_location, __stack_chk_fail, __tsan_*, ...)
+# and whatever $IGC_KEEP lists.  $IGC_CFLAGS: extra compiler flags (sanitizer build).
 igc_shim() { # $1 = dir
     mkdir -p "$1"
     echo "#include \"$REPO/compat/libc/include/ctype.h\"" > "$1/ctype.h"
     printf '#include_next <errno.h>\n#include <igris/util/errno.h>\n' > "$1/errno.h"
 }
-# $IGC_KEEP: space separated list of symbols that must stay the host's
 igc_one() { # $1 = shim dir, $2 = out.o, $3 = src.c
-    gcc -c -O2 -g -w -fno-builtin -fno-tree-loop-distribute-patterns -fstack-protector-strong -fexceptions \
+    gcc -c ${IGC_OPT:--O2} -g -w -fno-builtin -fno-tree-loop-distribute-patterns -fstack-protector-strong -fexceptions $IGC_CFLAGS \
         -U_FORTIFY_SOURCE -D_GNU_SOURCE -D'__weak_alias(a,b)=' -isystem "$1" -I"$REPO" "$3" -o "$2" || return 1
     objcopy --prefix-symbols=igc_ "$2" || return 1
     local args=()
-    for s in $IGC_KEEP $IGC_KEEP_EXTRA; do args+=(--redefine-sym "igc_$s=$s"); done
-    objcopy "${args[@]}" "$2"
+    for s in $IGC_KEEP; do args+=(--redefine-sym "igc_$s=$s"); done
+    for s in $(nm -u "$2" | awk '{print $2}' | grep '^igc___' | sort -u); do args+=(--redefine-sym "$s=${s#igc_}"); done
+    [ ${#args[@]} -eq 0 ] || objcopy "${args[@]}" "$2"
 }
